@@ -29,9 +29,12 @@ var (
 type world struct {
 	enc   *jsonenc.Encoder
 	nodes []base.LocalNode
-	salt  string // varies every hash, token and text between passes
+	salt  string // varies every hash, token and text between passes and between builds
 	h     int64  // block height of the objects
 	r     uint64
+	seed  int64
+	h0    int64
+	built int64 // number of objects built so far
 }
 
 func newWorld(seed int64) (*world, error) {
@@ -43,7 +46,8 @@ func newWorld(seed int64) (*world, error) {
 	}
 
 	rng := rand.New(rand.NewSource(seed))
-	w := &world{enc: enc, salt: fmt.Sprintf("s%d|", seed), h: 33 + rng.Int63n(1000), r: uint64(rng.Intn(4))}
+	w := &world{enc: enc, salt: fmt.Sprintf("s%d|", seed), h: 33 + rng.Int63n(1000), r: uint64(rng.Intn(4)), seed: seed}
+	w.h0 = w.h
 
 	for i := 0; i < 4; i++ {
 		w.nodes = append(w.nodes, isaac.NewLocalNode(base.NewMPrivatekey(), base.NewStringAddress(fmt.Sprintf("node%d-c28", i))))
@@ -216,8 +220,22 @@ func (w *world) blockMap() isaacblock.BlockMap {
 	return m
 }
 
-// Build returns a fresh real object of the kind.
+// Build returns a fresh real object of the kind. No two objects built by one process share a hash, a token, a
+// height or (hence) a signature: whatever the validating code remembers about one of them says nothing about
+// the others, so that the first validation of an object is a validation "in isolation" and the histories of
+// spec/SignedObjects.tla are the only place where something is validated twice. (Signatures are deterministic
+// and signing times have millisecond resolution: two builds of the same content within one millisecond would
+// otherwise be the same object.)
 func (w *world) Build(kind string) interface{} {
+	w.built++
+	w.h = w.h0 + w.built%100000
+	w.salt = fmt.Sprintf("s%d.%d|", w.seed, w.built)
+	salt = w.salt
+
+	return w.build(kind)
+}
+
+func (w *world) build(kind string) interface{} {
 	switch kind {
 	case "init-ballot-fact", "suffrage-confirm-ballot-fact", "empty-proposal-init-ballot-fact", "accept-ballot-fact",
 		"empty-operations-accept-ballot-fact", "not-processed-accept-ballot-fact":
